@@ -1,4 +1,4 @@
-import CentrifugeVerif.Proofs.SubProtoInv
+import CentrifugeVerif.Proofs.SubProtoNT10
 import CentrifugeVerif.Model.SubProtoWitness
 /-!
 # C05 — nothing of a connection survives its end
@@ -10,22 +10,17 @@ Proved for every reachable state (all labels, all interleavings, failures, timeo
 * `closed_settled_unregistered` — closed and nothing in flight ⇒ not registered, gauge back to 0;
 * `closed_no_new_subscription` (in `Props/C04.lean`) — nothing is committed after the close point.
 
-`closed_settled_empty` in full (no routing entry, no presence entry, no `c.channels` entry after a
-settled close) is NOT proved, and it is false for the model once the 5 s wait-gate timeout fires:
-`closed_settled_empty_fails_with_timeout` is a checked execution in which a presence entry survives.
-That execution needs a goroutine switch between two lock regions of one `unsubscribe` call, which the
-gate-controlled harness cannot force, so it is a model-level counterexample only (no replay on the
-implementation).  Without the timeout the bounded explorer finds no violation (`props/C05/corpus.ops`).
+Proved for executions in which the 5 s unsubscribe wait gate never times out (`ReachableNT`):
+* `closed_settled_empty` — after the connection closed (at whatever point of whatever subscribe /
+  unsubscribe was in progress, with whatever injected failures) and every operation has returned:
+  no `c.channels` entry, no routing entry, no presence entry, not registered, both gauges back.
+
+With the timeout the statement is false for the model: `closed_settled_empty_fails_with_timeout` is a
+kernel-checked execution in which a presence entry survives.  That execution needs a goroutine switch
+between two lock regions of one `unsubscribe` call, which the gate-controlled harness cannot force, so it
+is a model-level counterexample only (no replay on the implementation).
 -/
 namespace CentrifugeVerif.SubProto
-
-theorem applyEff_closed (s : State) (e : Eff) (h : s.status = .closed) : (applyEff s e).status = .closed := by
-  cases e <;> simp_all
-
-theorem applyEffs_closed (es : List Eff) (s : State) (h : s.status = .closed) : (applyEffs s es).status = .closed := by
-  induction es generalizing s with
-  | nil => exact h
-  | cons e r ih => exact ih _ (applyEff_closed s e h)
 
 /-- a closed connection never becomes open again, whatever runs afterwards -/
 theorem closed_is_final (s s' : State) (l : Label) (h : s.status = .closed) (hn : next s l = some s') :
@@ -37,9 +32,6 @@ theorem closed_is_final (s s' : State) (l : Label) (h : s.status = .closed) (hn 
   | step tid o =>
     obtain ⟨t, effs, t', _, _, rfl⟩ := next_step_some hn
     exact applyEffs_closed _ _ h
-
-theorem reachable_regOk (s : State) (h : Reachable s) : RegOk s :=
-  reachable_invariant RegOk RegOk.init next_regOk s h
 
 /-- the connections-inflight gauge is 1 exactly while the connection is registered -/
 theorem connections_gauge_lockstep (s : State) (h : Reachable s) :
@@ -65,10 +57,33 @@ theorem closed_subscriptions_gauge (s : State) (h : Reachable s) : s.subGauge = 
   rw [(reachable_struct s h).gauge]
   cases s.hub <;> simp; omega
 
-/-
-`closed_settled_empty` (full statement, not proved; false with timeouts, see below):
-  Reachable s → s.status = .closed → s.settled → c05Ok s = true
--/
+/-- `closed_settled_empty` (no wait-gate timeout): after the close, once everything in flight has
+returned, nothing of the connection is left — no `c.channels` entry, no routing entry in the hub, no
+presence entry, no registration, and both inflight gauges are back to 0. -/
+theorem closed_settled_empty (s : State) (h : ReachableNT s) (hc : s.status = .closed) (hs : s.settled) :
+    s.channels = [] ∧ s.hub = [] ∧ s.presence = [] ∧ s.registered = false ∧ s.connGauge = 0 ∧ s.subGauge = 0 := by
+  obtain ⟨h1, h2, h3⟩ := closed_settled_maps_empty s (reachableNT_invFull s h) hc hs
+  obtain ⟨h4, h5⟩ := closed_settled_unregistered s (reachableNT_reachable s h) hc hs
+  refine ⟨h1, h2, h3, h4, h5, ?_⟩
+  rw [(reachable_struct s (reachableNT_reachable s h)).gauge, h2]; rfl
+
+/-- the executable form of the statement used by the explorer and the oracle -/
+theorem closed_settled_c05Ok (s : State) (h : ReachableNT s) (hs : s.settled) : c05Ok s = true := by
+  unfold c05Ok
+  cases hst : s.status with
+  | closed =>
+    obtain ⟨h1, h2, h3, h4, h5, h6⟩ := closed_settled_empty s h hst hs
+    simp [h1, h2, h3, h4, h5, h6]
+  | connecting => simp
+  | connected => simp
+
+/-- the hypotheses are satisfiable: a subscribe completed, then close() ran to the end -/
+example : ∃ s, ReachableNT s ∧ s.status = .closed ∧ s.settled ∧ s.log ≠ [] :=
+  ⟨_, ⟨[.spawn .csub 0 ⟨true, true⟩, .step 0 .ok, .step 0 .ok, .step 0 .ok, .step 0 .ok, .step 0 .ok, .step 0 .ok,
+      .step 0 .ok, .step 0 .ok, .step 0 .ok, .step 0 .ok, .step 0 .ok, .spawn .close 0 ⟨false, false⟩,
+      .step 1 .ok, .step 1 .ok, .step 1 .ok, .step 1 .ok, .step 1 .ok, .step 1 (.pick 0), .step 1 .ok, .step 1 .ok,
+      .step 1 .ok, .step 1 .ok, .step 1 .ok, .step 1 .ok, .step 1 .ok, .step 1 .ok, .step 1 .ok], by decide, rfl⟩,
+    by decide, by decide, by decide⟩
 
 /-- with the wait-gate timeout the model reaches a closed, settled state that still holds a presence
 entry of the connection -/
